@@ -97,6 +97,20 @@ impl StrKind {
 pub struct DnValueSpec {
 	pub kind: StrKind,
 	pub text: String,
+	/// the text may lie outside the kind's alphabet: the value is *offered* to the constructor and
+	/// the attribute is left out when the constructor refuses it (as the reference alphabet says it must)
+	#[serde(default)]
+	pub attempt: bool,
+}
+
+impl DnValueSpec {
+	pub fn new(kind: StrKind, text: impl Into<String>) -> Self {
+		DnValueSpec { kind, text: text.into(), attempt: false }
+	}
+	/// Does the reference alphabet admit the text?
+	pub fn admitted(&self) -> bool {
+		self.text.chars().all(|c| self.kind.admits(c))
+	}
 }
 
 #[derive(Clone, Debug, PartialEq, Eq, Hash, Serialize, Deserialize)]
@@ -133,6 +147,9 @@ impl DnSpec {
 	pub fn effective(&self) -> Vec<(DnTypeSpec, DnValueSpec)> {
 		let mut out: Vec<(DnTypeSpec, DnValueSpec)> = Vec::new();
 		for (t, v) in &self.0 {
+			if v.attempt && !v.admitted() {
+				continue; // the constructor must refuse it, so it never gets pushed
+			}
 			if let Some(e) = out.iter_mut().find(|(t2, _)| t2 == t) {
 				e.1 = v.clone();
 			} else {
@@ -260,7 +277,7 @@ impl CertSpec {
 			sans: vec![],
 			dn: DnSpec(vec![(
 				DnTypeSpec::CommonName,
-				DnValueSpec { kind: StrKind::Utf8, text: "rv".into() },
+				DnValueSpec::new(StrKind::Utf8, "rv"),
 			)]),
 			is_ca: IsCaSpec::NoCa,
 			key_usages: vec![],
